@@ -208,6 +208,7 @@ def timed_cases(draw, classes=("gibbs", "pca", "hmc", "metropolis")):
     cfg["budget_steps_log"] = draw(st.floats(0, 3.5))   # budget expressed in (approximate) steps
     cfg["unit"] = unit
     cfg["pre_steps"] = draw(st.sampled_from([0, 0, 30, 300, 2000]))   # samples already held by the chain before the timed run
+    cfg["zero_budget"] = draw(st.integers(0, 11)) == 0                  # "every time budget": also none at all
     return cfg
 
 
@@ -231,6 +232,8 @@ def body_timed(case, ctx):
             per_step = max((tgt.n_calls - n0) / 3.0, 1.0) * tgt.cost
     budget = max(per_step * 10.0 ** case["budget_steps_log"], 0.5)
     budget = min(budget, 36000.0)
+    if case.get("zero_budget"):
+        budget = 0.0
     # express the budget through the documented arguments
     if case["unit"] == "minutes":
         kw = {"minutes": budget / 60.0}
@@ -267,6 +270,15 @@ def body_timed(case, ctx):
         base.time, util.time = saved
     taken = ch.chain_length - start_len
     elapsed = clock.t - t_start
+    if budget == 0.0:
+        # nothing to use up: the run must simply return (at most the progress batch in flight, as below), lengths consistent
+        if elapsed > 3 * (20 * per_step + 1.0):
+            raise Violation(f"timed-overshoot:{cls}", f"zero budget, ran {elapsed:.4g} s ({taken} steps)")
+        s_, p_ = readouts(ch)
+        if s_.shape[0] != ch.chain_length or p_.shape[0] != ch.chain_length:
+            raise Violation(f"timed-lengths:{cls}", f"chain_length {ch.chain_length}, samples {s_.shape}, probabilities {p_.shape}")
+        ctx.event("zero-budget")
+        return
     if taken < 1:
         raise Violation(f"timed-no-step:{cls}", "run_for returned without taking a step")
     if elapsed < budget * (1 - 1e-9):
